@@ -357,5 +357,21 @@ def run(F, rep, tier):
             rep.ok('R5.7', 'Expr::Sequence', 'forward iteration')
         else:
             rep.viol('R5.7', evaluate + '|Sequence|order', 'sequence statements are not evaluated in source order', eb.loc(min(regn)))
+    # ---------------- R5.8
+    rep.rule('R5.8', 'grammar layering of the short-circuit operators: Parser::single (or / coalesce level) loops and parses both operands '
+             'with logic_and, logic_and loops and parses both operands with chain; neither recurses into itself for an operand, so these '
+             'operators are left-associative and `a coalesce b or c` groups as `(a coalesce b) or c`')
+    for fn, sub in (('core::Parser::single', 'core::Parser::logic_and'), ('core::Parser::logic_and', 'core::Parser::chain')):
+        if not F.has_fn(fn):
+            rep.error('R5.8', 'missing ' + fn)
+            continue
+        pb = F.body(fn)
+        selfrec = [c for c in pb.calls if c.target == fn]
+        subs = [c for c in pb.calls if c.target == sub]
+        aggs = [bb for bb, s_ in pb.aggregates() if s_[2][2] == 'core::Expr' and s_[2][4] in ('Or', 'Coalesce', 'And')]
+        if not selfrec and len(subs) >= 2 and aggs and all(pb.on_cycle(bb) for bb in aggs):
+            rep.ok('R5.8', fn, 'operands parsed by %s in a loop (%d call sites), no self-recursion' % (sub.rsplit('::', 1)[-1], len(subs)))
+        else:
+            rep.viol('R5.8', fn + '|layering', '%s parses an operand by calling itself or no longer loops over %s (self calls %d, %s calls %d): the grouping of and / or / coalesce chains changes' % (fn.rsplit('::', 1)[-1], sub.rsplit('::', 1)[-1], len(selfrec), sub.rsplit('::', 1)[-1], len(subs)), (selfrec or subs or [None])[0].loc() if (selfrec or subs) else None)
     rep.undecided += ['equivalence with a reference interpreter over all programs', 'yield/into folding values', 'eval of computed strings']
     return META
